@@ -382,6 +382,24 @@ static void mode_rt(int lo, int hi, int step, int matrix)
 				}
 			}
 		}
+		/* the named day-count formats (-f ldn|mdn|jdn, daisy inside) are formats too: the number printed for a value must not depend on
+		 * the representation it is held in -- every representation reaches the day count through its own routine */
+		if (have[R_YMD]) {
+			for (int T = R_DAISY; T <= R_JDN; T++) {
+				struct dt_d_s ref = dt_dconv(reptyp[T], val[R_YMD]);
+				for (int R = 1; R < NREP; R++) {
+					static struct mkey *kd[NREP][NREP];
+					if (!have[R] || R == T) continue;
+					if (!kd[R][T]) { char kb[64]; sprintf(kb, "repindep %s as %s", repname[R], repname[T]); kd[R][T] = mk_get(kb); }
+					ev(kd[R][T]);
+					struct dt_d_s x = dt_dconv(reptyp[T], val[R]);
+					if (x.typ != ref.typ || x.u != ref.u) {
+						reptext(txt, R, r);
+						mism(kd[R][T], l, "%s '%s' as %s: 0x%x, held as ymd: 0x%x", repname[R], txt, repname[T], x.u, ref.u);
+					}
+				}
+			}
+		}
 		/* order independence: strf("%S1|%S2") == strf("%S1") "|" strf("%S2") */
 		if (matrix) {
 			for (int R = 0; R < NREP; R++) {
